@@ -9,11 +9,12 @@
 (* one record per observed handler segment, in engine order:                  *)
 (*   e = "w"    client Write arrives at node n (pb: 1, chain: 1), key k; the  *)
 (*              write's identity/value w; ml: x = rank of its timestamp       *)
-(*        "ps"  a replicated write w reaches node n and its put starts        *)
-(*              (pb Replicate, chain Propagate)                               *)
 (*        "pd"  node n's put of write w ended; st = that store afterwards     *)
-(*        "rv"  message m ("wack","commit","read","repl") for write/read w    *)
-(*              reaches node n;  ml "repl": vc = the vector clock it carries  *)
+(*        "sd"  node n finished waiting the store latency for a superseded    *)
+(*              replicated write w WITHOUT storing it; st = its store         *)
+(*        "rv"  message m ("repl","prop","wack","commit","read") for write /  *)
+(*              read w reaches node n (pb Replicate / chain Propagate: the    *)
+(*              node's put or wait starts); ml "repl": vc = the vector clock  *)
 (*        "ack" the client reply future of write w resolved; snap = every     *)
 (*              replica's store at that instant                               *)
 (*        "rs"  client Read w (read id) of key k arrives at node n            *)
@@ -63,17 +64,18 @@ PBApplyM(st, r) ==
     CASE r.e = "w" ->
            LET s1 == PB!PWrite(st, r.k) IN
            R(s1, IF r.n # 1 THEN "MODEL:write_not_at_primary" ELSE IF s1.seq # r.w THEN "MODEL:write_seq" ELSE "")
-      [] r.e = "ps" ->
-           IF r.n = 1 THEN R(st, "")     \* the primary's own put start is part of "w"
-           ELSE IF ~PB!CanBRecv(st, r.n - 1, r.w) THEN R(st, "MODEL:replicate_unexpected")
+      [] r.e = "rv" /\ r.m = "repl" ->
+           IF r.n = 1 \/ ~PB!CanBRecv(st, r.n - 1, r.w) THEN R(st, "MODEL:replicate_unexpected")
            ELSE R(PB!BRecv(st, r.n - 1, r.w), "")
-      [] r.e = "pd" ->
+      [] r.e \in {"pd", "sd"} ->
            IF r.n = 1
            THEN IF ~PB!CanPPutDone(st) \/ Head(st.pq) # r.w THEN R(st, "MODEL:primary_put_order")
                 ELSE LET s1 == PB!PPutDone(st) IN R(s1, IF s1.pst # r.st THEN "MODEL:primary_store" ELSE "")
            ELSE LET b == r.n - 1 IN
                 IF ~PB!CanBPutDone(st, b) \/ Head(st.bq[b]) # r.w THEN R(st, "MODEL:backup_put_order")
-                ELSE LET s1 == PB!BPutDone(st, b) IN R(s1, IF s1.bst[b] # r.st THEN "MODEL:backup_store" ELSE "")
+                ELSE LET s1 == PB!BPutDone(st, b) IN
+                     R(s1, IF s1.bst[b] # r.st THEN "MODEL:backup_store"
+                           ELSE IF (r.e = "pd") # (r.w \in s1.appl[b]) THEN "MODEL:backup_stored_or_skipped" ELSE "")
       [] r.e = "ack" ->
            R(st, IF r.w \notin st.acked THEN "MODEL:ack_instant"
                  ELSE IF ~PBSnapOK(st, r.snap) THEN "MODEL:stores_at_ack" ELSE "")
@@ -81,7 +83,7 @@ PBApplyM(st, r) ==
            R(st, IF r.x = 1 /\ ~PB!PBQuiet(st) THEN "MODEL:pending_work_at_end"
                  ELSE IF r.x = 1 /\ st.acked # 1..st.seq THEN "MODEL:unacked_write_at_end"
                  ELSE IF ~PBSnapOK(st, r.snap) THEN "MODEL:stores_at_end" ELSE "")
-      [] r.e = "rv" -> R(st, "")          \* ReplicationAck (lag statistics), not modelled
+      [] r.e = "rv" /\ r.m # "repl" -> R(st, "")          \* ReplicationAck (lag statistics), not modelled
       [] OTHER -> R(st, "MODEL:unknown_record")
 
 PBO0(T) == [wkey |-> <<>>, appl |-> [b \in 1..(T.n - 1) |-> {}]]
@@ -106,15 +108,13 @@ CHApplyM(st, r) ==
     CASE r.e = "w" ->
            LET s1 == CH!CWrite(st, r.k) IN
            R(s1, IF r.n # 1 THEN "MODEL:write_not_at_head" ELSE IF s1.seq # r.w THEN "MODEL:write_seq" ELSE "")
-      [] r.e = "ps" ->
-           IF r.n = 1 THEN R(st, "")
-           ELSE IF ~CH!CanCDeliver(st, CH!Msg("prop", r.n, r.w)) THEN R(st, "MODEL:propagate_unexpected")
-           ELSE R(CH!CDeliver(st, CH!Msg("prop", r.n, r.w)), "")
-      [] r.e = "pd" ->
+      [] r.e \in {"pd", "sd"} ->
            IF ~CH!CanCPutDone(st, r.n) \/ Head(st.q[r.n]) # r.w THEN R(st, "MODEL:put_order")
-           ELSE LET s1 == CH!CPutDone(st, r.n) IN R(s1, IF s1.st[r.n] # r.st THEN "MODEL:node_store" ELSE "")
+           ELSE LET s1 == CH!CPutDone(st, r.n) IN
+                R(s1, IF s1.st[r.n] # r.st THEN "MODEL:node_store"
+                      ELSE IF (r.e = "pd") # (r.w \in s1.appl[r.n]) THEN "MODEL:node_stored_or_skipped" ELSE "")
       [] r.e = "rv" ->
-           IF r.m \notin {"wack", "commit", "read"} THEN R(st, "MODEL:unknown_message")
+           IF r.m \notin {"prop", "wack", "commit", "read"} THEN R(st, "MODEL:unknown_message")
            ELSE IF ~CH!CanCDeliver(st, CH!Msg(r.m, r.n, r.w)) THEN R(st, "MODEL:message_unexpected")
            ELSE R(CH!CDeliver(st, CH!Msg(r.m, r.n, r.w)), "")
       [] r.e = "rs" ->
